@@ -394,9 +394,11 @@ pub fn inputs_c19(r: &mut Rng, n: usize, _tier: &str, out: &mut dyn Write) {
             // from_gregorian_str fast path for formats starting with `%Y-`)
             26 | 27 => {
                 let skel = *r.pick(&["%Y-%m-%dT%H:%M:%S.%f", "%Y-%m-%dT%H:%M:%S.%f %T", "%Y-%m-%d %H:%M:%S.%f", "%Y-%m-%dT%H:%M:%S", "%Y-%m-%dT%H:%M:%S%z",
-                    "%Y-%m-%dT%H:%M:%S.%f%z", "%Y-%m-%d %H:%M:%S", "%Y-%m-%dT%H:%M:%S.%f UTC"]);
+                    "%Y-%m-%dT%H:%M:%S.%f%z", "%Y-%m-%d %H:%M:%S", "%Y-%m-%dT%H:%M:%S.%f UTC", "%Y-%m-%dT%H:%M:%S %f", "%Y-%m-%dT%H:%M:%SZ%f",
+                    "%Y-%m-%d %H:%M:%S %f %T", "%Y/%m/%dT%H:%M:%S.%f", "%Y-%m-%dT%H.%M.%S.%f"]);
                 let mut two = vec!['m', 'd', 'H', 'M', 'S'];
-                match r.below(4) {
+                match r.below(6) {
+                    4 | 5 => {} // the ISO token order itself, with the skeleton's own (possibly unusual) separators
                     0 => two.swap(0, 1),
                     1 => { let (i, j) = (2 + r.below(3) as usize, 2 + r.below(3) as usize); two.swap(i, j) }
                     2 => { two.swap(0, 1); two.swap(2, 4) }
@@ -1054,7 +1056,25 @@ pub fn exec(op: &str, a: &[&str]) -> Option<String> {
                 Ok(s) => s,
                 Err(_) => return Some("err".to_string()),
             };
-            Some(res_e(fmt.parse(&text)))
+            // the three entry points of parsing with a format must agree (seeded change C19-13: a layout fast path in
+            // Epoch::from_str_with_format only)
+            let r1 = fmt.parse(&text);
+            let r2 = Epoch::from_str_with_format(&text, fmt);
+            let same = |x: &Result<Epoch, hifitime::HifitimeError>, y: &Result<Epoch, hifitime::HifitimeError>| match (x, y) {
+                (Ok(p), Ok(q)) => p.duration == q.duration && p.time_scale == q.time_scale,
+                (Err(_), Err(_)) => true,
+                _ => false,
+            };
+            if !same(&r1, &r2) {
+                return Some("entry-points-differ".to_string());
+            }
+            if op == "fmt_back" {
+                let r3 = Epoch::from_format_str(&text, &hex2str(a[0]));
+                if !same(&r1, &r3) {
+                    return Some("entry-points-differ".to_string());
+                }
+            }
+            Some(res_e(r1))
         }
         "iso_display" => {
             // Formatter(ISO8601) and the default Display of the same epoch
